@@ -692,7 +692,7 @@ def run(ctx):
                 if not isinstance(E[i][j], bool) or not isinstance(NE[i][j], bool):
                     raised = True
                     report("total", f"schema == schema did not return a bool: {E[i][j]!r} / {NE[i][j]!r}",
-                           [fam[i], fam[j]], None, observed=repr((E[i][j], NE[i][j])), expected="two bools")
+                           [fam[i], fam[j]], None, observed=common.srepr((E[i][j], NE[i][j])), expected="two bools")
         if raised:
             continue
         # reflexive (one object), != is the negation, symmetric
